@@ -101,14 +101,15 @@ def dot (xs ys : List F) : F := sumF (List.zipWith (· * ·) xs ys)
 
 /-- `SourceWeightedPDFRatio.get_ratio` for one event: `Rk` the ratios of the `K` sources for this event
 (`0` for a source whose (source, event) pair was not selected), `ak = a_jk[dataset_idx]`.
-`if A > 0: R_i /= A` — a dataset in which no source has any signal yield keeps the (zero) numerator. -/
+`if A != 0: R_i /= A` — a dataset in which no source has any signal yield keeps the (zero) numerator.
+(`A != 0` is written with the order relation the scalar interface has: `0 < A ∨ A < 0`.) -/
 def wRatio (ak Rk : List F) : F :=
-  if 0 < sumF ak then dot Rk ak / sumF ak else dot Rk ak
+  if 0 < sumF ak ∨ sumF ak < 0 then dot Rk ak / sumF ak else dot Rk ak
 
 /-- `SourceWeightedPDFRatio.get_gradient` for one event:
-`(-R_i*dAdp + Σ_k (a_k_grad[k]*R_ik + a_k[k]*R_ik_grad))`, divided by `A` only `if A > 0` -/
+`(-R_i*dAdp + Σ_k (a_k_grad[k]*R_ik + a_k[k]*R_ik_grad))`, divided by `A` only `if A != 0` -/
 def wRatioGrad (ak dak Rk dRk : List F) : F :=
-  if 0 < sumF ak then (-(wRatio ak Rk) * sumF dak + (dot dak Rk + dot ak dRk)) / sumF ak
+  if 0 < sumF ak ∨ sumF ak < 0 then (-(wRatio ak Rk) * sumF dak + (dot dak Rk + dot ak dRk)) / sumF ak
   else -(wRatio ak Rk) * sumF dak + (dot dak Rk + dot ak dRk)
 
 /-- `SourceWeightedPDFRatio.get_gradient` with its early exit: `return 0` iff the yield gradient is the int `0`
